@@ -42,7 +42,9 @@ var c15Gen = rapid.Custom(func(t *rapid.T) c15Cfg {
 	c := c15Cfg{}
 	c.Of = rapid.Bool().Draw(t, "generic")
 	c.Ctor = uniform(t, 2, "ctor")
-	c.Interval = []int64{-5, 0, 2, 3, 5, 10, 20}[uniform(t, 7, "interval")]
+	// 60000: a one-minute interval - nothing can be cleaned within a test, but such a cache must still die with
+	// its last reference (a janitor that looks at its stop signal only when it ticks would linger for a minute)
+	c.Interval = []int64{-5, 0, 2, 3, 5, 10, 20, 60000}[uniform(t, 8, "interval")]
 	c.Caches = []int{1, 1, 2, 5, 20, 60}[uniform(t, 6, "caches")]
 	c.Expiring = []int{0, 1, 7, 50}[uniform(t, 4, "expiring")]
 	c.Forever = []int{0, 3, 50}[uniform(t, 3, "forever")]
@@ -238,7 +240,7 @@ func oneC15(cfg c15Cfg) (viol string, miss string) {
 		}
 		effective = nil
 	}
-	if cfg.Swap != 0 && cfg.Interval > 0 {
+	if cfg.Swap != 0 && cfg.Interval > 0 && cfg.Interval < 1000 {
 		// a janitor pass already under way when the callback was replaced may still deliver to the old one: let it finish
 		time.Sleep(time.Duration(2*cfg.Interval+1) * time.Millisecond)
 	}
@@ -294,7 +296,11 @@ func oneC15(cfg c15Cfg) (viol string, miss string) {
 	if cfg.Interval <= 0 {
 		time.Sleep(3 * time.Millisecond) // all expiring entries are past their instant now
 	}
-	if cfg.Interval > 0 {
+	long := cfg.Interval >= 1000 // nothing can be swept within this test: only construction and the drop are observed
+	if long {
+		stats.Inc("configs_with_a_one_minute_interval")
+	}
+	if cfg.Interval > 0 && !long {
 		// (i) cleaned without any user call on the keys, within max(200 intervals, 5 s)
 		deadline := time.Duration(cfg.Interval) * 200 * time.Millisecond
 		if deadline < 5*time.Second {
@@ -422,7 +428,7 @@ func oneC15(cfg c15Cfg) (viol string, miss string) {
 		if msg := checkLedgers(cfg, led, led2, effective, expired, "the janitor removed the probe entries"); msg != "" {
 			return msg, ""
 		}
-	} else {
+	} else if cfg.Interval <= 0 {
 		// (ii) nothing is removed and nothing fires until DeleteExpired is called
 		// The window is 60 ms; when constructing these caches raised the goroutine count (which by itself is NOT a
 		// violation: the property speaks about removals, not goroutines) somebody may be sweeping on a period of
